@@ -7,6 +7,8 @@ import Driver.CostD
 import Driver.SpacingD
 import Driver.CodecD
 import Driver.EditorD
+import Driver.RepeatedD
+import Driver.TreeD
 /-
 One line in, one line out.  First word selects the model.
 Run: `lake env lean --run Driver/Main.lean < ops.txt`
@@ -31,6 +33,8 @@ def step (w : World) (line : String) : World × String :=
   | "W" :: rest => (w, spacingStep rest)
   | "K" :: rest => (w, codecStep rest)
   | "E" :: rest => let (e, out) := editorStep w.editor rest; ({ w with editor := e }, out)
+  | "R" :: rest => (w, repStep rest)
+  | "T" :: rest => (w, treeStep rest)
   | "V" :: rest => let (v, out) := viewsStep w.views rest; ({ w with views := v }, out)
   | ["reset"] => ({}, "ok")
   | _ => (w, "!bad-op")
